@@ -344,7 +344,12 @@ func rewritePropertyLookupOperands(kindMapper *contextAwareKindMapper, expressio
 			case pgsql.OperatorIn:
 				expression.LOperand = rewritePropertyLookupOperator(leftPropertyLookup, rOperandTypeHint.ArrayBaseType())
 
-			case pgsql.OperatorCypherStartsWith, pgsql.OperatorCypherEndsWith, pgsql.OperatorCypherContains, pgsql.OperatorRegexMatch:
+			case pgsql.OperatorRegexMatch:
+				// A regular expression is passed through as written: LIKE wildcard escaping would turn `\d` into
+				// `\\d` (a literal backslash followed by d).
+				expression.LOperand = rewritePropertyLookupOperator(leftPropertyLookup, pgsql.Text)
+
+			case pgsql.OperatorCypherStartsWith, pgsql.OperatorCypherEndsWith, pgsql.OperatorCypherContains:
 				expression.LOperand = rewritePropertyLookupOperator(leftPropertyLookup, pgsql.Text)
 
 				// If the right operand is a literal, it may contain characters that have special meaning in PgSQL
